@@ -49,7 +49,8 @@ def _decode_qbytearray(data_b64):
 class _CustomEncoder(json.JSONEncoder):
     """JSON encoder that accepts NumPy arrays."""
     def default(self, obj):
-        if isinstance(obj, np.ndarray) and obj.ndim == 1 and obj.shape[0] <= 10:
+        if (isinstance(obj, np.ndarray) and obj.ndim == 1 and obj.shape[0] <= 10 and
+                obj.dtype.kind != 'c'):
             # Serialize small arrays in clear text (lists of numbers).
             return obj.tolist()
         elif isinstance(obj, np.ndarray):
